@@ -12,6 +12,7 @@ import VrlProofs.Lemmas.C25Time
 import VrlProofs.Lemmas.C25Ip
 import VrlProofs.Lemmas.C25IpInv
 import VrlProofs.Lemmas.C25Unflatten
+import VrlProofs.Lemmas.C25Total
 
 namespace C25
 open Conv
@@ -214,6 +215,19 @@ theorem unflatten_flatten (sep : Key) (m : VMap) (r : Bool) (hne : sep ≠ [])
     (fun m' es' h1 h2 h3 h4 => unflattenEntries_spec sep hne r _ m' es' h1 h2 h3 h4)
     m _ hok hperm hlen
   simp only [unflatten, bytesLossy, hfix, unflattenEntries, h]
+
+open Flat in
+/-- with a non-empty (valid UTF-8) separator `unflatten` never exhausts its depth bound: the
+    model's `.panic` outcome — the stack overflow of the real function — needs `separator: ""`
+    (witness `witness_empty_separator_overflow`). For every object, any `recursive`. -/
+theorem unflatten_no_overflow (sep : Key) (m : VMap) (r : Bool) (hne : sep ≠ [])
+    (hfix : Utf8.fixed sep = true) :
+    ∃ m', unflatten (.obj m) (.bytes sep) (.bool r) = .ok (.obj m') := by
+  simp only [Utf8.fixed, beq_iff_eq] at hfix
+  have h := unflattenEntries_isSome sep hne r (weight (.obj m) + 1) (toList m) (by
+    rw [mu_toList]; simp only [weight]; omega)
+  obtain ⟨m', hm'⟩ := Option.isSome_iff_exists.mp h
+  exact ⟨m', by simp [unflatten, bytesLossy, hfix, hm']⟩
 
 /-- the domain as the property words it ("keys contain no separator, no empty containers"),
     minus the finding class `D_sep_overlap`, is inside the domain of the theorem. -/
